@@ -14,7 +14,7 @@ from vlib.model import ical_text as M
 
 from checks.c01_parse_roundtrip import fixtures, mutate, TOKENS
 
-from icalendar import Calendar, Event
+from icalendar import Calendar, Component, Event
 
 ID = "C04"
 TECHNIQUE = "fuzzing by generation and mutation (iCalendar token soup, heavily mutated fixtures, structured hostile TZID / VTIMEZONE inputs; atheris coverage-guided bytes in the thorough tier) with a crash/termination oracle bucketed by (exception type, innermost frame), plus a metamorphic/differential isolation oracle for VEVENT"
@@ -180,7 +180,7 @@ def judge_isolate(case):
         # must be unparsable - otherwise a parser that silently discards them would satisfy the metamorphic relation
         if _surely_invalid(line) and not unparsable:
             fails.append(Failure("C04.isolate", "invalid-line-silently-accepted-outside-lenient-component", f"{line!r}"))
-        pos = 1 + case["pos"] % 4          # among the event's own property lines (before the VALARM)
+        pos = [1, 2, 3, 4, 9, 10][case["pos"] % 6]          # among the event's own property lines, before and after its VALARM
         ev_lines = K_EVENT[:pos] + [line] + K_EVENT[pos:]
         sut.reset(provider)
         try:
@@ -221,6 +221,23 @@ def judge_isolate(case):
                 pass
             except Exception as e:  # noqa: BLE001
                 fails.append(Failure("C04.total", "parse-raises/" + exc_signature(e), f"line in VALARM: {line!r}: {e!r}"[:400]))
+            # the same event as the outermost component (no VCALENDAR around it), through every entry point
+            bare = ("\r\n".join(ev_lines) + "\r\n").encode("utf-8", "replace")
+            sut.reset(provider)
+            bare_base = T.extract(Event.from_ical(("\r\n".join(K_EVENT) + "\r\n").encode()))
+            for entry, parse_bare in (("Event.from_ical", lambda: Event.from_ical(bare)), ("Calendar.from_ical-multiple", lambda: Calendar.from_ical(bare, multiple=True)[0]),
+                                      ("Component.from_ical", lambda: Component.from_ical(bare))):
+                sut.reset(provider)
+                try:
+                    bev = parse_bare()
+                    if len(bev.errors) != 1 or any(c.errors for c in bev.walk() if c is not bev):
+                        fails.append(Failure("C04.isolate", "not-exactly-one-error-entry/outermost-VEVENT", f"{entry} {line!r} pos={pos}: {bev.errors!r}"[:300]))
+                    elif T.extract(bev) != bare_base:
+                        fails.append(Failure("C04.isolate", "other-properties-or-components-changed/outermost-VEVENT", f"{entry} {line!r} pos={pos}"))
+                except ValueError as e:
+                    fails.append(Failure("C04.isolate", "unparsable-line-in-outermost-VEVENT-fails-the-parse", f"{entry} {line!r} pos={pos}: {e}"[:300]))
+                except Exception as e:  # noqa: BLE001
+                    fails.append(Failure("C04.total", "parse-raises/" + exc_signature(e), f"{entry} bare VEVENT: {line!r}: {e!r}"[:400]))
             # every other place that is not inside a lenient component: directly in the VCALENDAR after the event has been
             # closed, and at the top level before / after an outermost component (a bare VEVENT included)
             if not re.match(r"(?i)x-comment", line):
@@ -415,7 +432,7 @@ def isolate_cases():
     line = st.one_of(st.sampled_from(BAD_LINES), st.sampled_from(GOOD_LINES),
                      st.lists(_frag, min_size=1, max_size=8).map("".join).filter(
                          lambda s: s[:1] not in (" ", "\t") and s.strip() and not re.match(r"(?i)\s*(begin|end)\s*[:;]", s)))
-    return st.builds(lambda l, p, w: {"gen": "isolate", "line": l, "pos": p, "wrap": w}, line, st.integers(0, 3), st.sampled_from([0, 0, 1, 2, 5]))
+    return st.builds(lambda l, p, w: {"gen": "isolate", "line": l, "pos": p, "wrap": w}, line, st.integers(0, 5), st.sampled_from([0, 0, 1, 2, 5]))
 
 
 def streams(tier):
